@@ -1,2 +1,534 @@
-//! (placeholder - being written)
-pub fn run(_seed: u64, _thorough: bool) -> u64 { 0 }
+//! C02 END-TO-END bounded stand-in (never counted as proved): an exchange's fill reaches the position of the instrument it NAMES.
+//!
+//! `c02.rs` drives `PositionManager` directly on one instrument. Here the whole path is the code under test:
+//!   unindexed trade account event (exchange id + the exchange's OWN instrument name, as an execution client produces it)
+//!     -> `AccountEventIndexer` of THAT exchange (`Indexer::index`, map built by the real `generate_execution_instrument_map`)
+//!     -> `EngineState::update_from_account` (state built by the real `EngineStateBuilder` over the real `IndexedInstruments`)
+//!     -> position of one instrument state / returned `PositionExited`.
+//!
+//! Set-up (real constructors only): layout A = 3 exchanges x 2-3 spot instruments (8 instruments), layout B = 2 exchanges (4 instruments).
+//! The same exchange symbol ("BTCUSDT", "ETHUSDT", "SOLUSDT") and the same asset names are listed on several exchanges, definitions are
+//! given interleaved (definition position != index; the instruments of a later exchange do not start at index 0), internal names are unique.
+//!
+//! Histories: per (exchange, instrument) fills - opens, increases, partial reductions, exact closes, flips, repeated flips - interleaved
+//! across exchanges and instruments; trade ids are numbered PER EXCHANGE (two exchanges produce the same id strings), a few streamed balance
+//! snapshots (asset names shared between exchanges) are mixed into the seeded histories as events that name no instrument.
+//!   1. every sequence up to depth 4 (thorough: 5) over 8 letters (Buy / Sell x 1 / 2 or 3) on PAIRS of instruments (same symbol on two exchanges / two symbols of
+//!      one exchange), and over 9 letters on the three instruments that share one symbol, iterative deepening (shortest witness first);
+//!   2. the crafted per-instrument scripts of c02.rs, a different one on every instrument at the same time, round-robin / reversed / shuffled;
+//!   3. seeded random histories over all instruments, the next fill drawn by shape from the instrument's current net quantity.
+//!
+//! Oracle: the reference arithmetic of c02.rs (cash-flow / cost-basis model written from the statement; the code under test is never asked
+//! for an expectation), one model per (exchange, instrument) AS NAMED in the unindexed fill. The engine entry that belongs to a name is
+//! found by scanning the `IndexedInstruments` for (exchange id, exchange symbol) - never through the execution map.
+//! After EVERY event, for EVERY instrument of EVERY exchange:
+//!  * position_is_net_filled_quantity_of_its_own_instrument   side / quantity_abs (and peak size, and the key stored in the position) ==
+//!                                                            sign / magnitude of the net signed quantity of the fills that NAMED it
+//!  * closed_record_iff_net_reaches_or_crosses_zero           `update_from_account` returns a record iff the named instrument's net was
+//!                                                            non-zero and reaches or crosses zero; it carries that instrument's key, old
+//!                                                            side, peak size, enter / exit time
+//!  * realised_pnl_conserves_cash_flows                       sum(closed pnl) + open pnl == proceeds - cost - fees + signed cost basis of the
+//!                                                            open quantity; a record's pnl == cash flow of its own fill portions
+//!  * fees_conserved                                          entry + exit fees over all positions == fees of the fills; per position split
+//!  * fill_ids_recorded                                       open position / closed record list exactly the ids of the fills that affected it
+//!  * other_instruments_untouched                             the full `InstrumentState` of every instrument NOT named is unchanged; orders /
+//!                                                            definition / data of the named one, all asset states (fills), trading, global too
+//! Tolerance as in c02.rs: clauses that involve a division in the real code (average entry, pro-rata fee) |diff| <= 1e-12, the rest exact.
+use crate::{report, rng::Rng};
+use barter::engine::state::{
+    EngineState, global::DefaultGlobalData, instrument::data::DefaultInstrumentMarketData, position::PositionExited, trading::TradingState,
+};
+use barter_execution::{
+    AccountEvent, AccountEventKind, UnindexedAccountEvent,
+    balance::{AssetBalance, Balance},
+    indexer::AccountEventIndexer,
+    map::generate_execution_instrument_map,
+    order::id::{OrderId, StrategyId},
+    trade::{AssetFees, Trade, TradeId},
+};
+use barter_instrument::{
+    Side, Underlying,
+    asset::{Asset, QuoteAsset, name::AssetNameExchange},
+    exchange::ExchangeId,
+    index::IndexedInstruments,
+    instrument::{Instrument, InstrumentIndex, name::InstrumentNameExchange},
+};
+use barter_integration::{snapshot::Snapshot, stream::indexed::Indexer};
+use chrono::{DateTime, Utc};
+use rust_decimal::Decimal;
+use rust_decimal_macros::dec;
+use std::{
+    collections::HashSet,
+    panic::{AssertUnwindSafe, catch_unwind},
+    sync::Arc,
+};
+
+type State = EngineState<DefaultGlobalData, DefaultInstrumentMarketData>;
+
+const L_POS: &str = "C02.bounded.position_is_net_filled_quantity_of_its_own_instrument";
+const L_CLOSE: &str = "C02.bounded.closed_record_iff_net_reaches_or_crosses_zero";
+const L_PNL: &str = "C02.bounded.realised_pnl_conserves_cash_flows";
+const L_FEES: &str = "C02.bounded.fees_conserved";
+const L_IDS: &str = "C02.bounded.fill_ids_recorded";
+const L_OTHER: &str = "C02.bounded.other_instruments_untouched";
+const TOL: Decimal = dec!(0.000000000001);
+
+fn time(k: usize) -> DateTime<Utc> { DateTime::<Utc>::from_timestamp(1_700_000_000 + k as i64, 0).unwrap() }
+fn near(a: Decimal, b: Decimal) -> bool { (a - b).abs() <= TOL }
+
+// ------------------------------------------------------------------------------------------------- layout
+struct Inst { ex: ExchangeId, name: &'static str, key: InstrumentIndex, internal: String }
+struct Layout {
+    indexed: IndexedInstruments,
+    /// in DEFINITION order (not index order)
+    insts: Vec<Inst>,
+    indexers: Vec<(ExchangeId, AccountEventIndexer)>,
+    /// (exchange, exchange asset name) of every asset
+    assets: Vec<(ExchangeId, String)>,
+    text: String,
+}
+impl Layout {
+    fn indexer(&self, ex: ExchangeId) -> &AccountEventIndexer { &self.indexers.iter().find(|(e, _)| *e == ex).expect("indexer of a layout exchange").1 }
+    fn who(&self, j: usize) -> String { let it = &self.insts[j]; format!("{} {} (index {})", it.ex.as_str(), it.name, it.key.index()) }
+    fn find(&self, ex: ExchangeId, name: &str) -> usize { self.insts.iter().position(|i| i.ex == ex && i.name == name).expect("instrument of the layout") }
+    fn fresh(&self) -> State {
+        EngineState::builder(&self.indexed, DefaultGlobalData, DefaultInstrumentMarketData::default).time_engine_start(time(0)).trading_state(TradingState::Enabled).build()
+    }
+}
+
+/// `defs`: (exchange, exchange symbol, base, quote) in definition order. Err: what went wrong with the real constructors
+fn layout(defs: &[(ExchangeId, &'static str, &'static str, &'static str)]) -> Result<Layout, String> {
+    let indexed = IndexedInstruments::new(defs.iter().map(|(ex, name, base, quote)| {
+        Instrument::spot(*ex, format!("{}-{}", ex.as_str(), name.to_lowercase()), *name, Underlying::new(Asset::new_from_exchange(*base), Asset::new_from_exchange(*quote)), None)
+    }));
+    let mut insts = vec![];
+    for (ex, name, _, _) in defs {
+        // the entry that belongs to (exchange, symbol): plain scan of the indexed collection
+        let hits: Vec<_> = indexed.instruments().iter().filter(|k| k.value.exchange.value == *ex && k.value.name_exchange == InstrumentNameExchange::from(*name)).collect();
+        if hits.len() != 1 { return Err(format!("{} indexed instruments for {} {name}", hits.len(), ex.as_str())); }
+        insts.push(Inst { ex: *ex, name, key: hits[0].key, internal: hits[0].value.name_internal.to_string() });
+    }
+    let mut indexers = vec![];
+    for ex in indexed.exchanges() {
+        let map = generate_execution_instrument_map(&indexed, ex.value).map_err(|e| format!("generate_execution_instrument_map({}) = Err({e})", ex.value))?;
+        indexers.push((ex.value, AccountEventIndexer::new(Arc::new(map))));
+    }
+    let assets = indexed.assets().iter().map(|k| (k.value.exchange, k.value.asset.name_exchange.to_string())).collect();
+    let mut by_index: Vec<&Inst> = insts.iter().collect();
+    by_index.sort_by_key(|i| i.key.index());
+    let text = format!("instruments by index: [{}] (defined in the order [{}])",
+        by_index.iter().map(|i| format!("{}={} {}", i.key.index(), i.ex.as_str(), i.name)).collect::<Vec<_>>().join(", "),
+        insts.iter().map(|i| format!("{} {}", i.ex.as_str(), i.name)).collect::<Vec<_>>().join(", "));
+    Ok(Layout { indexed, insts, indexers, assets, text })
+}
+
+// ------------------------------------------------------------------------------------------------- events
+#[derive(Clone, Copy, Debug, PartialEq)]
+struct Fill { buy: bool, price: Decimal, qty: Decimal, fee: Decimal }
+#[derive(Clone, Copy, Debug, PartialEq)]
+enum Ev {
+    /// fill on instrument `i` (definition position)
+    Fill { i: usize, f: Fill },
+    /// streamed balance snapshot of asset `a`: names no instrument
+    Bal { a: usize, total: i64 },
+}
+/// trade ids are numbered per exchange: the id of the next fill of `ev`'s exchange after `trace`
+fn trade_id(lay: &Layout, trace: &[Ev], ev: &Ev) -> String {
+    let Ev::Fill { i, .. } = ev else { return String::new(); };
+    let ex = lay.insts[*i].ex;
+    format!("t{}", trace.iter().filter(|e| matches!(e, Ev::Fill { i: j, .. } if lay.insts[*j].ex == ex)).count())
+}
+fn show(lay: &Layout, trace: &[Ev]) -> String {
+    let mut out = vec![];
+    for (k, ev) in trace.iter().enumerate() {
+        out.push(match ev {
+            Ev::Fill { i, f } => format!("#{k} {} {}: {} {} @ {} fee {} (id {})", lay.insts[*i].ex.as_str(), lay.insts[*i].name, if f.buy { "Buy" } else { "Sell" }, f.qty, f.price, f.fee, trade_id(lay, &trace[..k], ev)),
+            Ev::Bal { a, total } => format!("#{k} {}: balance snapshot {} total {total}", lay.assets[*a].0.as_str(), lay.assets[*a].1),
+        });
+    }
+    format!("{}; unindexed account events, each through the AccountEventIndexer of its exchange into EngineState::update_from_account: {}", lay.text, out.join(" ; "))
+}
+fn unindexed(lay: &Layout, ev: &Ev, k: usize, tid: &str) -> UnindexedAccountEvent {
+    match ev {
+        Ev::Fill { i, f } => {
+            let it = &lay.insts[*i];
+            AccountEvent { exchange: it.ex, kind: AccountEventKind::Trade(Trade {
+                id: TradeId::new(tid), order_id: OrderId::new(format!("o{k}")), instrument: InstrumentNameExchange::from(it.name), strategy: StrategyId::new("s"),
+                time_exchange: time(k), side: if f.buy { Side::Buy } else { Side::Sell }, price: f.price, quantity: f.qty, fees: AssetFees::quote_fees(f.fee),
+            }) }
+        }
+        Ev::Bal { a, total } => {
+            let (ex, name) = &lay.assets[*a];
+            AccountEvent { exchange: *ex, kind: AccountEventKind::BalanceSnapshot(Snapshot(AssetBalance { asset: AssetNameExchange::from(name.as_str()), balance: Balance::new(Decimal::from(*total), Decimal::from(*total)), time_exchange: time(k) })) }
+        }
+    }
+}
+
+// ------------------------------------------------------------------------------------------------- reference model (c02.rs)
+/// the open position as the model sees it
+#[derive(Clone, Debug)]
+struct Open { cost: Decimal, max: Decimal, cash: Decimal, fees_enter: Decimal, fees_exit: Decimal, t_enter: usize, ids: Vec<String> }
+#[derive(Clone, Debug, Default)]
+struct Model {
+    /// signed sum of the quantities of the fills that named this instrument (Buy +)
+    net: Decimal,
+    /// sell proceeds - buy cost - fees over those fills
+    cash: Decimal,
+    fees: Decimal,
+    open: Option<Open>,
+    /// what the REAL code reported for closed positions of this instrument so far
+    closed_pnl: Decimal,
+    closed_fees: Decimal,
+}
+/// what the model expects of the record of a position closed by this fill
+struct ClosedExp { long: bool, max: Decimal, cash: Decimal, fees_enter: Decimal, fees_exit: Decimal, t_enter: usize, ids: Vec<String> }
+
+impl Model {
+    /// apply event number k (a fill with trade id `tid`); returns the expected closed record (if the fill closes a position)
+    fn apply(&mut self, f: &Fill, k: usize, tid: &str) -> Option<ClosedExp> {
+        let signed = if f.buy { f.qty } else { -f.qty };
+        let flow = if f.buy { -(f.price * f.qty) } else { f.price * f.qty };
+        let before = self.net;
+        self.net += signed;
+        self.cash += flow - f.fee;
+        self.fees += f.fee;
+        let fresh = |qty: Decimal, fee: Decimal, cash: Decimal| Open { cost: f.price * qty, max: qty, cash, fees_enter: fee, fees_exit: Decimal::ZERO, t_enter: k, ids: vec![tid.to_string()] };
+        let Some(mut o) = self.open.take() else {
+            self.open = Some(fresh(f.qty, f.fee, flow - f.fee));
+            return None;
+        };
+        let long = before > Decimal::ZERO;
+        let q_open = before.abs();
+        o.ids.push(tid.to_string());
+        if long == f.buy {
+            // increase: the entry joins the cost basis
+            o.cost += f.price * f.qty;
+            o.cash += flow - f.fee;
+            o.fees_enter += f.fee;
+            if self.net.abs() > o.max { o.max = self.net.abs(); }
+            self.open = Some(o);
+            None
+        } else if f.qty < q_open {
+            // reduce: the sold part leaves the cost basis pro rata (the mean of the remaining entries is unchanged)
+            o.cost = o.cost * (q_open - f.qty) / q_open;
+            o.cash += flow - f.fee;
+            o.fees_exit += f.fee;
+            self.open = Some(o);
+            None
+        } else if f.qty == q_open {
+            o.cash += flow - f.fee;
+            o.fees_exit += f.fee;
+            Some(ClosedExp { long, max: o.max, cash: o.cash, fees_enter: o.fees_enter, fees_exit: o.fees_exit, t_enter: o.t_enter, ids: o.ids })
+        } else {
+            // crossing fill: the closing part (q_open of f.qty) and the remainder share cash flow and fee by quantity
+            let rest = f.qty - q_open;
+            let fee_close = f.fee * q_open / f.qty;
+            let fee_rest = f.fee - fee_close;
+            let flow_close = if f.buy { -(f.price * q_open) } else { f.price * q_open };
+            let flow_rest = flow - flow_close;
+            o.cash += flow_close - fee_close;
+            o.fees_exit += fee_close;
+            self.open = Some(fresh(rest, fee_rest, flow_rest - fee_rest));
+            Some(ClosedExp { long, max: o.max, cash: o.cash, fees_enter: o.fees_enter, fees_exit: o.fees_exit, t_enter: o.t_enter, ids: o.ids })
+        }
+    }
+}
+
+fn ids(v: &[String]) -> Vec<TradeId> { v.iter().map(TradeId::new).collect() }
+type Fail = (&'static str, String, String);
+
+// ------------------------------------------------------------------------------------------------- one event
+/// event number k on the real engine state (`before`: the state before the event) and on the models; every clause that fails
+fn step(lay: &Layout, before: &State, state: &mut State, models: &mut [Model], ev: &Ev, k: usize, tid: &str) -> Vec<Fail> {
+    let mut out: Vec<Fail> = vec![];
+    let named: Option<usize> = match ev { Ev::Fill { i, .. } => Some(*i), Ev::Bal { .. } => None };
+    let un = unindexed(lay, ev, k, tid);
+    let ex = un.exchange;
+    let what = match named { Some(i) => format!("fill #{k} naming {}", lay.who(i)), None => format!("balance snapshot #{k} of {}", ex.as_str()) };
+    // through the indexer of the event's exchange
+    let event: AccountEvent = match lay.indexer(ex).index(un) {
+        Ok(e) => e,
+        Err(e) => { out.push((if named.is_some() { L_POS } else { L_OTHER }, format!("{what}: the AccountEventIndexer of {} refuses it: {e}", ex.as_str()), "indexed (the exchange lists that name) and applied".into())); return out; }
+    };
+    // into the engine state
+    let closed: Option<PositionExited<QuoteAsset>> = match catch_unwind(AssertUnwindSafe(|| state.update_from_account(&event))) {
+        Ok(c) => c,
+        Err(_) => { out.push((if named.is_some() { L_POS } else { L_OTHER }, format!("{what}: EngineState::update_from_account panicked on the indexed event {event:?}"), "applied".into())); return out; }
+    };
+    let net_before = named.map(|i| models[i].net).unwrap_or_default();
+    let exp_closed = match ev { Ev::Fill { i, f } => models[*i].apply(f, k, tid), Ev::Bal { .. } => None };
+
+    // ---- the returned record belongs to the NAMED instrument and exists iff its net reaches or crosses zero
+    let (must_close, net_txt) = match named {
+        Some(i) => {
+            let net = models[i].net;
+            let crossed = (net_before > Decimal::ZERO && net < Decimal::ZERO) || (net_before < Decimal::ZERO && net > Decimal::ZERO);
+            (!net_before.is_zero() && (net.is_zero() || crossed), format!("net quantity of {} {net_before} -> {net}", lay.who(i)))
+        }
+        None => (false, "no instrument named".to_string()),
+    };
+    let rec_txt = |c: &PositionExited<QuoteAsset>| format!("record for instrument index {} ({}): side {:?} quantity_abs_max {} enter {} exit {} trades {:?}", c.instrument.index(),
+        lay.insts.iter().position(|it| it.key == c.instrument).map(|j| format!("{} {}", lay.insts[j].ex.as_str(), lay.insts[j].name)).unwrap_or("no such instrument".into()), c.side, c.quantity_abs_max, c.time_enter, c.time_exit, c.trades);
+    if closed.is_some() != must_close {
+        out.push((L_CLOSE, format!("{what}: {net_txt}; update_from_account returned {}", closed.as_ref().map(|c| rec_txt(c)).unwrap_or("no closed record".into())), if must_close { "a closed record of that instrument".into() } else { "no closed record".into() }));
+    }
+    if let Some(c) = &closed {
+        if let Some(i) = named { if c.instrument != lay.insts[i].key { out.push((L_CLOSE, format!("{what}: returned {}", rec_txt(c)), format!("a record (if any) carrying the key of the named instrument, index {}", lay.insts[i].key.index()))); } }
+        // booked on the instrument whose key it carries
+        if let Some(j) = lay.insts.iter().position(|it| it.key == c.instrument) { models[j].closed_pnl += c.pnl_realised; models[j].closed_fees += c.fees_enter.fees + c.fees_exit.fees; }
+    }
+    if let (Some(c), Some(e)) = (&closed, &exp_closed) {
+        let side = if e.long { Side::Buy } else { Side::Sell };
+        if c.side != side || c.quantity_abs_max != e.max || c.time_enter != time(e.t_enter) || c.time_exit != time(k) {
+            out.push((L_CLOSE, format!("{what}: {}", rec_txt(c)), format!("side {side:?} quantity_abs_max {} enter {} exit {}", e.max, time(e.t_enter), time(k))));
+        }
+        if c.trades != ids(&e.ids) { out.push((L_IDS, format!("{what}: closed record lists trades {:?}", c.trades), format!("the fills that affected the closed position, in order: {:?}", e.ids))); }
+        if !near(c.pnl_realised, e.cash) { out.push((L_PNL, format!("{what}: closed record pnl_realised = {}", c.pnl_realised), format!("cash flow of the fill portions of that position (proceeds - cost - its fee shares) = {}", e.cash))); }
+        if !near(c.fees_enter.fees, e.fees_enter) || !near(c.fees_exit.fees, e.fees_exit) {
+            out.push((L_FEES, format!("{what}: closed record fees_enter {} fees_exit {}", c.fees_enter.fees, c.fees_exit.fees), format!("fees_enter {} fees_exit {} (a crossing fill's fee is split by quantity: closed part / fill quantity)", e.fees_enter, e.fees_exit)));
+        }
+    }
+
+    // ---- every instrument of every exchange
+    // the named instrument first (the first witness of a label speaks about the instrument the fill names), then the others in definition order
+    let order: Vec<usize> = named.into_iter().chain((0..lay.insts.len()).filter(|j| Some(*j) != named)).collect();
+    for j in order {
+        let it = &lay.insts[j];
+        let (st, sb) = (state.instruments.instrument_index(&it.key), before.instruments.instrument_index(&it.key));
+        let m = &models[j];
+        let cur = st.position.current.as_ref();
+        let role = if named == Some(j) { "the NAMED instrument" } else { "NOT named by the event" };
+        let real_net = cur.map(|p| if p.side == Side::Buy { p.quantity_abs } else { -p.quantity_abs }).unwrap_or(Decimal::ZERO);
+        if real_net != m.net || cur.is_none() != m.net.is_zero() {
+            out.push((L_POS, format!("after {what}: open position of {} ({role}) = {:?}", lay.who(j), cur.map(|p| (p.side, p.quantity_abs))),
+                format!("net signed quantity of the fills that named {} {} = {} -> {}", it.ex.as_str(), it.name, m.net, if m.net.is_zero() { "no open position".to_string() } else { format!("{} {}", if m.net > Decimal::ZERO { "Buy" } else { "Sell" }, m.net.abs()) })));
+        } else if let (Some(p), Some(o)) = (cur, &m.open) {
+            if p.instrument != it.key { out.push((L_POS, format!("after {what}: the open position held by {} carries instrument index {}", lay.who(j), p.instrument.index()), format!("index {}", it.key.index()))); }
+            if p.quantity_abs_max != o.max { out.push((L_POS, format!("after {what}: {} quantity_abs_max = {}", lay.who(j), p.quantity_abs_max), format!("largest size this position ever had = {}", o.max))); }
+        }
+        if let (Some(p), Some(o)) = (cur, &m.open) {
+            if p.trades != ids(&o.ids) { out.push((L_IDS, format!("after {what}: open position of {} lists trades {:?}", lay.who(j), p.trades), format!("the fills that named {} {} since its position was opened: {:?}", it.ex.as_str(), it.name, o.ids))); }
+            if !near(p.fees_enter.fees, o.fees_enter) || !near(p.fees_exit.fees, o.fees_exit) {
+                out.push((L_FEES, format!("after {what}: open position of {} fees_enter {} fees_exit {}", lay.who(j), p.fees_enter.fees, p.fees_exit.fees), format!("fees_enter {} fees_exit {}", o.fees_enter, o.fees_exit)));
+            }
+        }
+        // every fee attributed exactly once
+        let open_fees = cur.map(|p| p.fees_enter.fees + p.fees_exit.fees).unwrap_or(Decimal::ZERO);
+        if !near(m.closed_fees + open_fees, m.fees) {
+            out.push((L_FEES, format!("after {what}: entry + exit fees over all positions of {} = {} (closed records {} + open {open_fees})", lay.who(j), m.closed_fees + open_fees, m.closed_fees), format!("sum of the fees of the fills that named it = {}", m.fees)));
+        }
+        // conservation of cash; the open quantity at its average entry = cost basis of the open inventory (model), signed
+        let open_pnl = cur.map(|p| p.pnl_realised).unwrap_or(Decimal::ZERO);
+        let basis = m.open.as_ref().map(|o| if m.net > Decimal::ZERO { o.cost } else { -o.cost }).unwrap_or(Decimal::ZERO);
+        if !near(m.closed_pnl + open_pnl, m.cash + basis) {
+            out.push((L_PNL, format!("after {what}: {}: sum of closed pnl_realised {} + open pnl_realised {open_pnl} = {} (open position's price_entry_average {:?})", lay.who(j), m.closed_pnl, m.closed_pnl + open_pnl, cur.map(|p| p.price_entry_average)),
+                format!("sell proceeds - buy cost - fees of the fills that named it ({}) + signed open quantity at its average entry ({basis}) = {}", m.cash, m.cash + basis)));
+        }
+        // untouched
+        if named != Some(j) {
+            if st != sb {
+                out.push((L_OTHER, format!("after {what}: InstrumentState of {} (NOT named) changed: position {:?} -> {:?}, tear sheet changed = {}, orders changed = {}", lay.who(j),
+                    sb.position.current.as_ref().map(|p| (p.side, p.quantity_abs)), cur.map(|p| (p.side, p.quantity_abs)), st.tear_sheet != sb.tear_sheet, st.orders != sb.orders), "unchanged".into()));
+            }
+        } else if st.key != sb.key || st.instrument != sb.instrument || st.orders != sb.orders || st.data != sb.data || st.key != it.key || st.instrument.name_internal.as_ref() != it.internal.as_str() {
+            out.push((L_OTHER, format!("after {what}: key / definition / orders / data of the named instrument {} changed", lay.who(j)), "unchanged (a fill moves position and tear sheet only)".into()));
+        }
+    }
+    if named.is_some() && state.assets != before.assets { out.push((L_OTHER, format!("after {what}: asset states changed"), "unchanged by a fill".into())); }
+    if state.trading != before.trading || state.global != before.global { out.push((L_OTHER, format!("after {what}: trading state / global data changed"), "unchanged".into())); }
+    out
+}
+
+// ------------------------------------------------------------------------------------------------- search
+struct Search { seen: HashSet<&'static str>, n: u64 }
+impl Search {
+    fn fails(&mut self, lay: &Layout, fails: &[Fail], trace: &[Ev]) {
+        for (label, obs, exp) in fails {
+            if self.seen.insert(*label) { report(label, show(lay, trace), obs.clone(), exp.clone()); }
+        }
+    }
+    /// every sequence of exactly `remaining` more events over `alphabet` (prefixes shared, counted at the last level: `explore` deepens
+    /// the bound one by one, so shorter sequences were counted before). false iff some sequence failed
+    fn dfs(&mut self, lay: &Layout, alphabet: &[Ev], remaining: usize, state: &State, models: &[Model], trace: &mut Vec<Ev>) -> bool {
+        let mut all_ok = true;
+        for ev in alphabet {
+            let (mut s2, mut m2) = (state.clone(), models.to_vec());
+            let tid = trade_id(lay, trace, ev);
+            trace.push(*ev);
+            let fails = step(lay, state, &mut s2, &mut m2, ev, trace.len() - 1, &tid);
+            if remaining == 1 { self.n += 1; }
+            self.fails(lay, &fails, trace);
+            if !fails.is_empty() { all_ok = false; }
+            else if remaining > 1 { all_ok &= self.dfs(lay, alphabet, remaining - 1, &s2, &m2, trace); }
+            trace.pop();
+        }
+        all_ok
+    }
+    fn explore(&mut self, lay: &Layout, alphabet: &[Ev], depth: usize) {
+        let (state, models) = (lay.fresh(), vec![Model::default(); lay.insts.len()]);
+        // a failing sequence ends the group (its extensions say nothing new)
+        for bound in 1..=depth { if !self.dfs(lay, alphabet, bound, &state, &models, &mut vec![]) { break; } }
+    }
+    fn seq(&mut self, lay: &Layout, evs: &[Ev]) {
+        let (mut state, mut models) = (lay.fresh(), vec![Model::default(); lay.insts.len()]);
+        for (k, ev) in evs.iter().enumerate() {
+            let before = state.clone();
+            let tid = trade_id(lay, &evs[..k], ev);
+            let fails = step(lay, &before, &mut state, &mut models, ev, k, &tid);
+            self.n += 1;
+            self.fails(lay, &fails, &evs[..=k]);
+            if !fails.is_empty() { return; }
+        }
+    }
+}
+
+fn fill(buy: bool, price: Decimal, qty: Decimal, fee: Decimal) -> Fill { Fill { buy, price, qty, fee } }
+
+/// the crafted single-instrument histories of c02.rs: partial reduce then re-increase at another price, exact close, asymmetric flips
+/// (1 -> 4, 3 -> 4, 2 -> 3), repeated flips
+fn scripts(long: bool, fee: Decimal) -> Vec<Vec<Fill>> {
+    let (b, sl) = (long, !long);
+    let f = fill;
+    vec![
+        vec![f(b, dec!(100), dec!(2), fee), f(sl, dec!(120), dec!(1), fee), f(b, dec!(120), dec!(1), fee), f(sl, dec!(130), dec!(2), fee)],
+        vec![f(b, dec!(100), dec!(3), fee), f(sl, dec!(90), dec!(2), fee), f(b, dec!(80), dec!(0.5), fee), f(b, dec!(85), dec!(4), fee), f(sl, dec!(100), dec!(1.5), fee), f(sl, dec!(100), dec!(4), fee)],
+        vec![f(b, dec!(100), dec!(1), fee), f(sl, dec!(110), dec!(4), fee), f(b, dec!(105), dec!(3), fee)],
+        vec![f(b, dec!(100), dec!(3), fee), f(sl, dec!(110), dec!(4), fee), f(b, dec!(120), dec!(3), fee), f(sl, dec!(90), dec!(5), fee), f(b, dec!(95), dec!(3), fee)],
+        vec![f(b, dec!(50), dec!(1), dec!(1)), f(sl, dec!(52), dec!(1), dec!(1))],
+        vec![f(b, dec!(100), dec!(2), fee), f(sl, dec!(100), dec!(3), fee), f(sl, dec!(100), dec!(1), fee), f(b, dec!(100), dec!(1), fee), f(b, dec!(100), dec!(1), fee)],
+    ]
+}
+
+/// 8 letters on a pair: Buy 1 / Buy big / Sell 1 / Sell big per instrument, big = 2 on the first and 3 on the second (opens, increases,
+/// reductions, exact closes, flips in both directions; 1 -> flip by 3 splits the fee 1/3 : 2/3, so the two shares cannot be swapped unseen)
+fn pair_alphabet(a: usize, b: usize) -> Vec<Ev> {
+    let mut v = vec![];
+    for (i, big) in [(a, dec!(2)), (b, dec!(3))] {
+        v.push(Ev::Fill { i, f: fill(true, dec!(100), dec!(1), dec!(1)) });
+        v.push(Ev::Fill { i, f: fill(true, dec!(120), big, dec!(0)) });
+        v.push(Ev::Fill { i, f: fill(false, dec!(110), dec!(1), dec!(1)) });
+        v.push(Ev::Fill { i, f: fill(false, dec!(90), big, dec!(3)) });
+    }
+    v
+}
+/// 9 letters on a triple: per instrument Buy 1 / Sell 1 / Sell 3
+fn triple_alphabet(t: [usize; 3]) -> Vec<Ev> {
+    let mut v = vec![];
+    for i in t {
+        v.push(Ev::Fill { i, f: fill(true, dec!(100), dec!(1), dec!(1)) });
+        v.push(Ev::Fill { i, f: fill(false, dec!(110), dec!(1), dec!(0)) });
+        v.push(Ev::Fill { i, f: fill(false, dec!(90), dec!(3), dec!(3)) });
+    }
+    v
+}
+
+pub fn run(seed: u64, thorough: bool) -> u64 {
+    use ExchangeId::*;
+    let mut s = Search { seen: HashSet::new(), n: 0 };
+    // definitions interleaved across exchanges; index order is (exchange, internal name): binance_spot 0..2, bybit_spot 3..5, kraken 6..7
+    let lay_a = layout(&[
+        (Kraken, "BTCUSDT", "BTC", "USDT"), (BinanceSpot, "ETHUSDT", "ETH", "USDT"), (BybitSpot, "BTCUSDT", "BTC", "USDT"), (BinanceSpot, "BTCUSDT", "BTC", "USDT"),
+        (Kraken, "SOLUSDT", "SOL", "USDT"), (BybitSpot, "ETHUSDT", "ETH", "USDT"), (BinanceSpot, "ETHBTC", "ETH", "BTC"), (BybitSpot, "SOLUSDT", "SOL", "USDT"),
+    ]);
+    // kraken 0..1, okx 2..3; okx lists ETHUSDT under the same symbol, btc/usdt under its own
+    let lay_b = layout(&[(Okx, "ETHUSDT", "ETH", "USDT"), (Kraken, "ETHUSDT", "ETH", "USDT"), (Kraken, "BTCUSDT", "BTC", "USDT"), (Okx, "BTC-USDT", "BTC", "USDT")]);
+    let (lay_a, lay_b) = match (lay_a, lay_b) {
+        (Ok(a), Ok(b)) => (a, b),
+        (a, b) => {
+            let e = a.err().or(b.err()).unwrap_or_default();
+            report(L_POS, "set-up: IndexedInstruments::new + generate_execution_instrument_map per exchange".into(), e, "one indexed instrument per definition, one map per exchange".into());
+            return 1;
+        }
+    };
+    // silence the panic messages of deliberately caught panics (a mis-indexed event may address a missing table entry)
+    let hook = std::panic::take_hook();
+    std::panic::set_hook(Box::new(|_| {}));
+
+    // 1. bounded exhaustive on pairs / a triple
+    let depth = if thorough { 5 } else { 4 };
+    {
+        let l = &lay_a;
+        let pairs = [
+            (l.find(BinanceSpot, "BTCUSDT"), l.find(Kraken, "BTCUSDT")), (l.find(BybitSpot, "BTCUSDT"), l.find(BinanceSpot, "BTCUSDT")), (l.find(BinanceSpot, "ETHUSDT"), l.find(BybitSpot, "ETHUSDT")),
+            (l.find(Kraken, "SOLUSDT"), l.find(BybitSpot, "SOLUSDT")), (l.find(BinanceSpot, "BTCUSDT"), l.find(BinanceSpot, "ETHBTC")), (l.find(Kraken, "BTCUSDT"), l.find(Kraken, "SOLUSDT")),
+        ];
+        for (a, b) in pairs { s.explore(l, &pair_alphabet(a, b), depth); }
+        s.explore(l, &triple_alphabet([l.find(BinanceSpot, "BTCUSDT"), l.find(BybitSpot, "BTCUSDT"), l.find(Kraken, "BTCUSDT")]), depth);
+        let l = &lay_b;
+        for (a, b) in [(l.find(Kraken, "ETHUSDT"), l.find(Okx, "ETHUSDT")), (l.find(Kraken, "BTCUSDT"), l.find(Okx, "BTC-USDT"))] { s.explore(l, &pair_alphabet(a, b), depth); }
+    }
+
+    // 2. crafted scripts, a different one on every instrument at the same time
+    let mut rng = Rng::seeded(seed, 0xC02E);
+    let fees = [dec!(0), dec!(1), dec!(3)];
+    for lay in [&lay_a, &lay_b] {
+        let n = lay.insts.len();
+        for r in 0..36usize {
+            let per: Vec<Vec<Fill>> = (0..n).map(|j| scripts((j + r / 6) % 2 == 0, fees[(j + r / 12) % 3])[(j + r) % 6].clone()).collect();
+            let longest = per.iter().map(|p| p.len()).max().unwrap_or(0);
+            let mut rr = vec![];
+            for st in 0..longest { for j in 0..n { if let Some(f) = per[j].get(st) { rr.push(Ev::Fill { i: j, f: *f }); } } }
+            s.seq(lay, &rr);
+            let mut rev = vec![];
+            for st in 0..longest { for j in (0..n).rev() { if let Some(f) = per[j].get(st) { rev.push(Ev::Fill { i: j, f: *f }); } } }
+            s.seq(lay, &rev);
+            // one instrument after the other (no interleaving), and seeded merges that keep every instrument's own order
+            s.seq(lay, &(0..n).flat_map(|j| per[j].iter().map(move |f| Ev::Fill { i: j, f: *f })).collect::<Vec<_>>());
+            for _ in 0..if thorough { 40 } else { 6 } {
+                let mut at = vec![0usize; n];
+                let mut evs = vec![];
+                loop {
+                    let live: Vec<usize> = (0..n).filter(|j| at[*j] < per[*j].len()).collect();
+                    if live.is_empty() { break; }
+                    let j = live[rng.below(live.len() as u64) as usize];
+                    evs.push(Ev::Fill { i: j, f: per[j][at[j]] });
+                    at[j] += 1;
+                }
+                s.seq(lay, &evs);
+            }
+        }
+    }
+
+    // 3. seeded random histories: the next fill is drawn by shape from the named instrument's current net quantity
+    let prices = [dec!(90), dec!(100), dec!(100.5), dec!(110), dec!(120), dec!(0.01), dec!(25000)];
+    let qtys = [dec!(0.001), dec!(0.5), dec!(1), dec!(1.5), dec!(2), dec!(3), dec!(7), dec!(1000)];
+    let rounds = if thorough { 60_000 } else { 8_000 };
+    for round in 0..rounds {
+        let lay = if round % 4 == 3 { &lay_b } else { &lay_a };
+        let n = lay.insts.len();
+        // the instruments that trade in this history: all, or a random subset of at least two
+        let mut active: Vec<usize> = (0..n).collect();
+        if rng.chance(1, 2) { while active.len() > 2 && rng.chance(2, 3) { active.remove(rng.below(active.len() as u64) as usize); } }
+        let small = rng.chance(1, 2);
+        let len = 8 + rng.below(33) as usize;
+        let mut nets = vec![Decimal::ZERO; n];
+        let mut evs = vec![];
+        for _ in 0..len {
+            if rng.chance(1, 12) { evs.push(Ev::Bal { a: rng.below(lay.assets.len() as u64) as usize, total: 1 + rng.below(1000) as i64 }); continue; }
+            let i = active[rng.below(active.len() as u64) as usize];
+            let price = if small { prices[rng.below(5) as usize] } else { prices[rng.below(prices.len() as u64) as usize] };
+            let pick = |rng: &mut Rng| if small { qtys[1 + rng.below(5) as usize] } else { qtys[rng.below(qtys.len() as u64) as usize] };
+            let net = nets[i];
+            let (buy, qty) = if net.is_zero() { (rng.chance(1, 2), pick(&mut rng)) } else {
+                let (long, size) = (net > Decimal::ZERO, net.abs());
+                match rng.below(10) {
+                    0..=2 => (long, pick(&mut rng)),
+                    3..=4 => {
+                        // partial reduction: a grid quantity below the open size, else half of it
+                        let below: Vec<Decimal> = qtys.iter().copied().filter(|q| *q < size).collect();
+                        (!long, if below.is_empty() { size * dec!(0.5) } else { below[rng.below(below.len() as u64) as usize] })
+                    }
+                    5..=6 => (!long, size),
+                    7..=8 => (!long, size + pick(&mut rng)),
+                    _ => (rng.chance(1, 2), pick(&mut rng)),
+                }
+            };
+            let fee = match rng.below(4) { 0 => dec!(0), 1 => dec!(1), 2 => dec!(0.1), _ => price * qty * dec!(0.001) };
+            nets[i] += if buy { qty } else { -qty };
+            evs.push(Ev::Fill { i, f: fill(buy, price, qty, fee) });
+        }
+        s.seq(lay, &evs);
+    }
+    std::panic::set_hook(hook);
+    s.n
+}
